@@ -688,7 +688,7 @@ def rule_redeclared(chk, prog, tier):
                        'must be %s; cproc: %s %s' % ('accepted' if ok else 'diagnosed', runs[0].outcome, runs[0].detail if not got_ok else ''))
     # ---- enumerators
     ts = prog.require_func('tagspec', 'decl.c')
-    for names, ok in ((['A', 'B'], True), (['A', 'A'], False), (['A', 'B', 'A'], False)):
+    for names, ok in ((['A', 'B'], True), (['A', 'A'], False), (['A', 'B', 'A'], False), ([], False), (['A'], True)):        # an enumerator list is not empty (6.7.2.2 syntax)
         def runner(it):
             w = World(prog, it=it, target='x86_64-sysv')
             toks = ['TENUM', 'TLBRACE']
@@ -724,7 +724,7 @@ def rule_redeclared(chk, prog, tier):
         if len(runs) != 1 or runs[0].outcome == 'unsupported':
             raise AnalysisBroken('tagspec enum %s: %s' % (names, runs[0].detail if runs else 'no run'))
         got_ok = runs[0].outcome == 'return'
-        if not ok and got_ok:
+        if not ok and got_ok and len(set(names)) < len(names):
             r.violation('redeclared-class: an enumerator that redeclares an identifier of the same scope is accepted (the later value wins)', 'decl.c:tagspec', 'enum { %s } is accepted' % ', '.join(names)); continue
         r.instance(got_ok == ok, 'redeclared:enumerators(%s)' % ', '.join(names), 'decl.c:tagspec', 'must be %s; cproc: %s' % ('accepted' if ok else 'diagnosed', runs[0].outcome))
     # ---- an enum specifier without an enumerator list needs a complete enum type (the back end has no class for an incomplete one)
